@@ -34,6 +34,7 @@ EXPLANATION = (
     "operand roles agree between builder, instruction class and executor."
     ' A slot of the request array is written under tests on the request type and its own field only; LinkLayerCreate has one default per field (the executor zips arguments, fields and defaults). C11.Z: no truthiness test on an int-typed value.'
     ' C11.K: a value remembered across calls (keyed table or single slot) is remembered under every argument it depends on.'
+    ' C11.R executes _alloc_ent_results_array abstractly for the three request types.'
 )
 LEVEL_TEXT = (
     "Static analysis, partial: all 40 index constants, all request parameters, all result attributes, all forwarding call sites and "
